@@ -204,6 +204,8 @@ func emitStreamStd(cw *caseWriter, prop string, ti, to []colDesc, proc, kind str
 	cw.emit(prop+" "+kind+" reader "+descStr(ti)+descStr(to)+proc+fmt.Sprint(len(data)), true, "stream", prop, descStr(ti), descStr(to), proc, readerStr(revs), "-", extStr(ext), obs)
 }
 
+var streamRuns int
+
 func runStreamFrom(ti, to jsonline.Template, proc string, r io.Reader, wevs []string) string {
 	w := &scriptWriter{evs: wevs}
 	var calls []string
@@ -216,11 +218,29 @@ func runStreamFrom(ti, to jsonline.Template, proc string, r io.Reader, wevs []st
 		}
 		calls = append(calls, b+":"+classifyStream(err))
 	}
+	// every second run hands the decision to the library's own processors (recorded on the way): DefaultProcessor is
+	// "return what you are given", NoFailureProcessor "carry on"
+	streamRuns++
+	useLib := streamRuns%2 == 0
 	switch {
 	case proc == "default":
-		p = func(row jsonline.Row, err error) error { record(row, err); n++; return err }
+		p = func(row jsonline.Row, err error) error {
+			record(row, err)
+			n++
+			if useLib {
+				return jsonline.DefaultProcessor(row, err)
+			}
+			return err
+		}
 	case proc == "tolerant":
-		p = func(row jsonline.Row, err error) error { record(row, err); n++; return nil }
+		p = func(row jsonline.Row, err error) error {
+			record(row, err)
+			n++
+			if useLib {
+				return jsonline.NoFailureProcessor(row, err)
+			}
+			return nil
+		}
 	default:
 		var at int
 		fmt.Sscanf(proc, "failat:%d", &at)
